@@ -87,9 +87,27 @@ def hostile_datagrams(rng, pair, n):
 def hostile_xfrm_events(rng, n):
     out = []
     for _ in range(n):
-        k = rng.randrange(4)
+        k = rng.randrange(6)
         if k == 0:
             out.append(bytes(rng.getrandbits(8) for _ in range(rng.randrange(0, 64))))
+        elif k >= 4:     # ACQUIRE (with its template) for an address pair / family nobody configured
+            import socket
+            from ipaddress import ip_address
+            import netlink
+            import xfrm
+            fam = rng.choice([socket.AF_INET, socket.AF_INET6, 0, 99])
+            a1 = ip_address('10.7.7.1') if fam != socket.AF_INET6 else ip_address('2001:db8::1')
+            a2 = ip_address('10.7.7.2') if fam != socket.AF_INET6 else ip_address('2001:db8::2')
+            acq = xfrm.XfrmUserAcquire(id=xfrm.XfrmId(daddr=xfrm.XfrmAddress.from_ipaddr(a2)),
+                                       saddr=xfrm.XfrmAddress.from_ipaddr(a1),
+                                       sel=xfrm.XfrmSelector(family=rng.choice([socket.AF_INET, fam]),
+                                                             daddr=xfrm.XfrmAddress.from_ipaddr(a2),
+                                                             saddr=xfrm.XfrmAddress.from_ipaddr(a1)),
+                                       policy=xfrm.XfrmUserPolicyInfo(index=rng.randrange(1 << 20)))
+            attr = netlink.NetlinkProtocol._attribute_factory(xfrm.XFRMA_TMPL, xfrm.XfrmUserTmpl(family=fam))
+            body = bytes(acq) + bytes(attr)
+            hdr = netlink.NetlinkHeader(length=16 + len(body), type=xfrm.XFRM_MSG_ACQUIRE, flags=0, seq=0, pid=0)
+            out.append(bytes(hdr) + body)
         elif k == 1:     # ACQUIRE without template attribute
             import ctypes
             import netlink
